@@ -205,7 +205,13 @@ func genC06(t *core.Tape, tier string) *Scenario {
 			can.Status = weirdStatuses[9+t.Choose(len(weirdStatuses)-9, "adv.status")]
 			can.Header = http.Header{"Content-Type": {[]string{"application/json", "text/html", "application/proto"}[t.Choose(3, "adv.ct")]}}
 			can.Body = []byte(badConnectJSON[t.Choose(len(badConnectJSON), "adv.json")])
-			info.httpOnly = !strings.Contains(string(can.Body), `"code":"internal"`) && !strings.Contains(string(can.Body), `"code":"code_17"`) && !strings.Contains(string(can.Body), `"code":"code_4294967296"`) && !strings.Contains(string(can.Body), `"code":7`)
+			if t.Bool(1, 3, "adv.bodyfails") {
+				// the error body cannot be read to its end: no protocol-level
+				// error is available, whatever the bytes so far look like
+				can.EndErr = []error{io.ErrUnexpectedEOF, errors.New("read tcp 10.0.0.1:443: connection reset by peer")}[t.Choose(2, "adv.bodyfails.how")]
+				sc.Notes["nonok_body_read_failure"]++
+			}
+			info.httpOnly = can.EndErr != nil || !strings.Contains(string(can.Body), `"code":"internal"`) && !strings.Contains(string(can.Body), `"code":"code_17"`) && !strings.Contains(string(can.Body), `"code":"code_4294967296"`) && !strings.Contains(string(can.Body), `"code":7`)
 		case c.Proto == PConnect:
 			js := badEndStream[t.Choose(len(badEndStream), "adv.end")]
 			body := []byte{}
